@@ -31,7 +31,7 @@ CHUNK = {"quick": 40, "thorough": 200}
 RULE = (
     "program = seeded circuit of 1-40 operations over {I,H,P,Pdag,X,Y,Z, wrappers of 1-4 gates, CNOT, CZ, "
     "classical-CNOT, classical-CZ, measure-CNOT-reset, Z-measure} on 1-3 emitters, 0-3 photons (<= 6 qubits), 1-3 "
-    "classical bits, built with add (and insert_at for purely quantum ops), optionally from a random stabilizer initial "
+    "classical bits, built with add (and insert_at for purely quantum ops; ~30% of programs are a low-Hadamard entangling prefix, half of them followed by a perturbation and most of the inverse prefix, ending in a Z measurement of every register, so that late outcomes are deterministic through products of several tableau rows), optionally from a random stabilizer initial "
     "state; each program is compiled on both backends under forced-0, forced-1 and every leaf of the outcome tree in "
     "probabilistic mode (<=16 leaves, else 16 seeded leaves). evaluations counts programs. Distinct = distinct event-log "
     "digest; non-trivial = the program has >=1 two-qubit gate and >=1 measurement followed by a later operation on the "
@@ -99,6 +99,39 @@ def gen_case(run_seed, tier):
     mix = sz.choice([None, None, [30, 10, 30, 25, 5], [20, 20, 20, 20, 20], [50, 0, 30, 20, 0], [25, 5, 25, 25, 20], [30, 5, 20, 35, 10]])
     hbias = sz.choice([0.0, 0.3, 0.5])
     prog = gen_program(wl, ne, np_, nc, length, allow_ins, mix, hbias)
+    if sz.random() < 0.3 and ne + np_ >= 2:
+        # "measure-everything tail": an entangling prefix with few Hadamards (low X-rank: many Z-type correlations, Y-type
+        # generators from P) followed by a Z measurement of every register in a seeded order, so that the later measurements
+        # are deterministic *through products of several stabilizer rows* (sign from the i-phase bookkeeping of row_sum)
+        pre = gen_program(wl, ne, np_, nc, sz.randint(4, 16), False, [45, 5, 46, 2, 2], 0.0)
+        for st in pre:
+            sp = st[1]
+            if sp[0] == "g1" and sp[1] == "H" and wl.random() < 0.6:
+                sp[1] = wl.choice(["P", "Pd"])
+        regs_all = [("e", i) for i in range(ne)] + [("p", i) for i in range(np_)]
+        wl.shuffle(regs_all)
+        h_at = wl.sample(regs_all, wl.randint(1, max(1, len(regs_all) // 2)))
+        if wl.random() < 0.5:
+            # compute / perturb / partially uncompute: U, a few one-qubit Paulis and phase gates, then most of U^-1 in reverse;
+            # the state ends close to a product state whose tableau rows are scrambled, so Z outcomes are deterministic only
+            # through products of several rows with non-trivial i-phases
+            inv1 = {"P": "Pd", "Pd": "P"}
+            body = [st for st in pre if st[1][0] in ("g1", "g2")]
+            mid = []
+            for _ in range(wl.randint(1, 3)):
+                t, r = wl.choice(regs_all)
+                mid.append(["add", ["g1", wl.choice(["P", "Pd", "X", "Y", "Z", "P"]), t, r]])
+            back = []
+            for st in reversed(body):
+                if wl.random() < 0.12:
+                    continue
+                sp = list(st[1])
+                if sp[0] == "g1":
+                    sp[1] = inv1.get(sp[1], sp[1])
+                back.append(["add", sp])
+            pre = body + mid + back
+        prog = [["add", ["g1", "H", t, r]] for t, r in h_at] + pre + [["add", ["m", t, r, wl.randrange(nc)]] for t, r in regs_all]
+        allow_ins = False
     init = None
     if sz.random() < 0.25:
         regs = ne + np_
